@@ -14,8 +14,16 @@ theorem validate_rejects_collisions (ext : Ext) (g : Genesis) (h : g.validate ex
     (g.pairs.map fun p => Key.tokenPair ext p.1 p.2.1).Nodup ∧ (g.used.map fun u => Key.usedNonce u.1 u.2).Nodup ∧
     (g.messengers.map fun m => Key.messenger m.1).Nodup ∧ g.burnPaused.isSome ∧ g.sendPaused.isSome := by
   simp only [validate, Bool.and_eq_true, noDup_iff] at h
-  obtain ⟨⟨⟨⟨⟨⟨⟨⟨⟨⟨_, _⟩, _⟩, _⟩, h1⟩, h2⟩, h3⟩, h4⟩, h5⟩, h6⟩, h7⟩ := h
+  obtain ⟨⟨⟨⟨⟨⟨⟨⟨⟨⟨⟨_, _⟩, _⟩, _⟩, h1⟩, h2⟩, h3⟩, h4⟩, _⟩, h5⟩, h6⟩, h7⟩ := h
   exact ⟨h1, h2, h5, h6, h7, h3, h4⟩
+
+/-- validation also rejects token pairs whose remote token is not 32 bytes (such a pair would be stored under
+    a key that no query and no receive can derive — see known_findings.jsonl, fixed). -/
+theorem validate_token_lengths (ext : Ext) (g : Genesis) (h : g.validate ext = true) :
+    ∀ p ∈ g.pairs, p.2.1.length = 32 := by
+  simp only [validate, Bool.and_eq_true, List.all_eq_true, decide_eq_true_eq] at h
+  obtain ⟨⟨⟨⟨_, h8⟩, _⟩, _⟩, _⟩ := h
+  exact h8
 
 /-! ### the store after InitGenesis, key by key -/
 
